@@ -91,10 +91,12 @@ def _state_codec(ctx: Ctx) -> None:
                 sites.append(n)
     ctx.require_count("RF-ABS", len(sites), 2, "default-substitution sites in deserialize_from_batch")
     missing = Obj()
+    row_vars = [n.targets[0].id for n in walk_scope(fi.node) if isinstance(n, ast.Assign) and len(n.targets) == 1 and isinstance(n.targets[0], ast.Name) and isinstance(n.value, ast.Call) and last_attr(n.value) == "_validate_single_row_batch"]
+    row_var = one(row_vars, "row extraction via _validate_single_row_batch", fi)
     bad = []
     for has_default, has_factory in ((True, False), (False, True)):
         plan = Obj(name="f", transient=False, default=("D" if has_default else missing), default_factory=((lambda: "F") if has_factory else missing), unwrapped_type=int)
-        base_env: dict[str, object] = {plan_var: plan, "MISSING": missing, "row": {"f": None}}
+        base_env: dict[str, object] = {plan_var: plan, "MISSING": missing, row_var: {"f": None}}
         for site in sites:
             env = dict(base_env)
             reachable = True
